@@ -62,6 +62,8 @@ type vfWorldCfg struct {
 	ClientProto string `json:"client_proto,omitempty"`
 	// the deployment's and the foreign deployment's session keys are long (> 100 bytes) and differ only near the end
 	LongKeys bool `json:"long_keys,omitempty"`
+	// what the provider advertises as code_challenge_methods_supported (nil: nothing)
+	ChallengeMethods []string `json:"challenge_methods,omitempty"`
 }
 
 const (
@@ -94,9 +96,10 @@ func (d *vfDownstream) ServeHTTP(w http.ResponseWriter, r *http.Request) {
 // ---- a deployment: provider + instances sharing one key and configuration
 
 type vfInstance struct {
-	t    *TraefikOidc
-	down *vfDownstream
-	idx  int // index in the case (fresh instance = new index)
+	t     *TraefikOidc
+	down  *vfDownstream
+	idx   int    // index in the case (fresh instance = new index)
+	realm string // "" the provider's main realm; "/realms/b": a second tenant served by the SAME provider host
 }
 
 type vfWorld struct {
@@ -122,6 +125,7 @@ type vfWorld struct {
 	tmplRows  []string
 	incoming  []string // return URIs seen in main cookies
 	ownCodecs map[string][]securecookie.Codec
+	cfgObjs   map[string]*Config
 	origin    map[string]int // cookie value -> who produced it: 1 the deployment (any instance with its key), 2 the foreign deployment
 	decodeFallback bool // cookies are read through the deployment's own codec (see codecsFor)
 }
@@ -179,6 +183,7 @@ func vfNewWorld(tb testingTB, cfg vfWorldCfg, nbrowsers int, r *vfRand) *vfWorld
 		tmplUsed: map[string]bool{}}
 	w.prov = vfNewProvider(vfClientID, cfg.EndSession, r.fork(77))
 	w.prov.revocation = cfg.Revocation
+	w.prov.challengeMethods = cfg.ChallengeMethods
 	w.base = time.Now().Truncate(time.Second)
 	w.baseUnix = w.base.Unix()
 	for i := 0; i < nbrowsers; i++ {
@@ -197,6 +202,20 @@ func vfNewWorld(tb testingTB, cfg vfWorldCfg, nbrowsers int, r *vfRand) *vfWorld
 func (w *vfWorld) close() { w.prov.close() }
 
 func (w *vfWorld) config(key string) *Config {
+	// ONE configuration object per deployment, handed to every New() (one middleware attached to several routers,
+	// a handler rebuilt on reload): what New() does to it stays done
+	if c, ok := w.cfgObjs[key]; ok {
+		return c
+	}
+	if w.cfgObjs == nil {
+		w.cfgObjs = map[string]*Config{}
+	}
+	c := w.buildConfig(key)
+	w.cfgObjs[key] = c
+	return c
+}
+
+func (w *vfWorld) buildConfig(key string) *Config {
 	c := CreateConfig()
 	c.ProviderURL = w.prov.issuer
 	c.CallbackURL = vfCallbackPath
@@ -263,9 +282,28 @@ func (w *vfWorld) noteOrigin(value string, who int) {
 	}
 }
 
-func (w *vfWorld) addInstance(slot int) {
-	t, down := w.newInstance(w.keyA())
-	in := &vfInstance{t: t, down: down, idx: len(w.insts)}
+func (w *vfWorld) addInstance(slot int) { w.addInstanceRealm(slot, "") }
+
+// addInstanceRealm: an instance of the deployment configured for another tenant (realm) of the same provider host
+func (w *vfWorld) addInstanceRealm(slot int, realm string) {
+	var t *TraefikOidc
+	var down *vfDownstream
+	if realm == "" {
+		t, down = w.newInstance(w.keyA())
+	} else {
+		down = &vfDownstream{}
+		c := w.buildConfig(w.keyA())
+		c.ProviderURL = w.prov.issuer + realm
+		h, err := New(context.Background(), down, c, "vf-realm")
+		if err != nil {
+			w.tb.Fatalf("New (realm %s): %v", realm, err)
+		}
+		t = h.(*TraefikOidc)
+		if !vfWaitReady(t, 10*time.Second) {
+			w.tb.Fatalf("realm instance did not become ready")
+		}
+	}
+	in := &vfInstance{t: t, down: down, idx: len(w.insts), realm: realm}
 	w.insts = append(w.insts, in)
 	for len(w.slots) <= slot {
 		w.slots = append(w.slots, -1)
@@ -901,12 +939,25 @@ func (w *vfWorld) do(rq vfReq) *vfObserved {
 	}
 	// browser: apply Set-Cookie with replace/delete semantics
 	for _, c := range obs.Cookies {
+		w.noteOrigin(c.Value, 1)
+		// RFC 6265: a cookie is identified by (name, domain, path); without a Path attribute the path is the
+		// directory of the request path.  The jar models the root-path cookies (the only ones sent with every
+		// request): a Set-Cookie for another path neither replaces nor deletes them.
+		eff := c.Path
+		if eff == "" || eff[0] != '/' {
+			eff = "/"
+			if i := strings.LastIndexByte(req.URL.Path, '/'); i > 0 {
+				eff = req.URL.Path[:i]
+			}
+		}
+		if eff != "/" {
+			continue
+		}
 		if c.MaxAge < 0 || (c.MaxAge == 0 && !c.Expires.IsZero() && c.Expires.Before(time.Now())) {
 			delete(b.jar, c.Name)
 		} else {
 			b.jar[c.Name] = c.Value
 		}
-		w.noteOrigin(c.Value, 1)
 	}
 	// remember the authorization redirect
 	if obs.Status == 302 && strings.HasPrefix(obs.Location, w.prov.issuer+"/authorize") {
@@ -1061,6 +1112,16 @@ func (w *vfWorld) locationTerm(o *vfObserved, req *http.Request) string {
 	}
 	authBase := w.prov.issuer + "/authorize"
 	endBase := w.prov.issuer + "/logout"
+	// the endpoints of every tenant the provider serves are authorization / end-session endpoints (WHICH one an
+	// instance must use is the monitors' business: they compare with what the provider publishes for its realm)
+	for _, realm := range []string{"/realms/b"} {
+		if strings.HasPrefix(loc, w.prov.issuer+realm+"/authorize?") {
+			authBase = w.prov.issuer + realm + "/authorize"
+		}
+		if strings.HasPrefix(loc, w.prov.issuer+realm+"/logout?") {
+			endBase = w.prov.issuer + realm + "/logout"
+		}
+	}
 	if strings.HasPrefix(loc, authBase+"?") {
 		u, err := url.Parse(loc)
 		if err == nil {
@@ -1570,7 +1631,11 @@ func (w *vfWorld) caseTerm(id int) string {
 	}
 	var insts []string
 	for _, in := range w.insts {
-		auth, end, _ := vfEndpoints(in.t)
+		// what the provider publishes for the instance's realm (NOT what the instance believes)
+		auth, end := w.prov.issuer+in.realm+"/authorize", ""
+		if w.cfg.EndSession {
+			end = w.prov.issuer + in.realm + "/logout"
+		}
 		insts = append(insts, fmt.Sprintf("(%d, (true, (%d, %d)))", in.idx, w.in.id(auth), w.in.id(end)))
 	}
 	// what net/http.Redirect makes of each remembered return URI (net/http is an oracle, not code under test)
